@@ -1,3 +1,15 @@
-From Sigtools.Model Require Import Base Bind Algebra.
-Theorem C19_placeholder : True. Proof. exact I. Qed.
-Print Assumptions C19_placeholder.
+(* C19 — functools.partial objects get the signature Python actually enforces. *)
+From Sigtools.Model Require Import Base Bind Roles Algebra.
+From Sigtools.Proofs Require Import SmallModel Basics.
+
+Theorem C19_wf s n kw pobj r : sig_partial s n kw pobj = Ok r -> validate (params r) = true.
+Proof. exact (sig_partial_wf s n kw pobj r). Qed.
+Print Assumptions C19_wf.
+
+Theorem C19_only_value_errors s n kw pobj : benign (sig_partial s n kw pobj).
+Proof. exact (mask_gen_only_value_errors s n (mkHide false false false false) kw (Some pobj)). Qed.
+Print Assumptions C19_only_value_errors.
+
+Theorem C19_small_model sigs s c : In s sigs -> accepts s (rep_for sigs c) = accepts s c.
+Proof. exact (accepts_rep sigs s c). Qed.
+Print Assumptions C19_small_model.
